@@ -66,14 +66,26 @@ def expected_stream(values):
 def run_iter(make_iter, cap):
     """Consume an iterator factory: (canon values, exception name | None)."""
     out = []
+    it = None
     try:
         with deadline(10):
-            for x in itertools.islice(make_iter(), cap):
+            it = make_iter()
+            for x in itertools.islice(it, cap):
                 out.append(canon(x))
     except Timeout:
         return out, 'HANG'
     except BaseException as e:          # noqa: BLE001  (we want to see everything the library raises)
         return out, exc_name(e)
+    finally:
+        # never leave an unfinished prefetching generator to the cyclic garbage collector: CPython 3.12 may run
+        # its finalizer (which joins a thread) inside threading's own shutdown-lock bookkeeping and deadlock there
+        close = getattr(it, 'close', None)
+        if close is not None:
+            try:
+                with deadline(10):
+                    close()
+            except BaseException:       # noqa: BLE001
+                pass
     return out, None
 
 
